@@ -81,6 +81,7 @@ type OpResult struct {
 	LogTo                              int
 	Fresh                              []uint64 // callredef: fresh tokens supplied for the declared inputs
 	ConvNil                            bool     // convert: returned value was nil
+	Raw                                *argmapper.Result
 }
 
 // Runtime is an instantiated world.
@@ -756,12 +757,16 @@ func (rt *Runtime) RunOp(i int) *OpResult {
 	rt.Results[i] = res
 	rt.curOp[th] = i
 	rt.Sim.ResetOp()
+	if o.Twin != 0 {
+		rt.Sim.Reseed(uint64(o.Twin))
+	}
 	rt.Sim.Event("op", uint64(i))
 	args := rt.argList(o.Args)
 	p, class, site, detail := core.Guard(func() {
 		switch o.Kind {
 		case OpCall:
 			r := rt.funcs[o.Target].Call(args...)
+			res.Raw = &r
 			res.Err = r.Err()
 			if res.Err == nil {
 				res.OutLen = r.Len()
@@ -877,3 +882,33 @@ func BuiltFindable(slots []Slot) bool {
 	}
 	return true
 }
+
+// Provenance renders where a token came from, independently of token ids:
+// "A<option>" for a supplied value, "P<party>.<slot>(inputs...)" for a product.
+func (rt *Runtime) Provenance(id uint64) string {
+	return rt.prov(id, 0)
+}
+
+func (rt *Runtime) prov(id uint64, depth int) string {
+	if id == 0 {
+		return "zero"
+	}
+	if id >= uint64(len(rt.Tokens)) || depth > 12 {
+		return "?"
+	}
+	tk := rt.Tokens[id]
+	if tk.Kind == TokSupplied {
+		return fmt.Sprintf("A%d", tk.Arg)
+	}
+	s := fmt.Sprintf("P%d.%s(", tk.Party, tk.Label)
+	for i, in := range tk.Inputs {
+		if i > 0 {
+			s += ","
+		}
+		s += rt.prov(in, depth+1)
+	}
+	return s + ")"
+}
+
+// ExecCount is how often party pi has executed so far.
+func (rt *Runtime) ExecCount(pi int) int { return rt.execs[pi] }
